@@ -19,8 +19,9 @@ Families
   A  inputs: every log of <= N stored batches over the 8 shapes on partition 0 x {start at 0, seek to every inner
      offset} x {response cut: explorer choice x<=1 around "everything", constant 1 batch per response}, budgets
      x<=1 / r<=1.
-  B  programs: every program of the stated sizes over the call alphabet on representative logs, both baselines,
-     single-deviation budgets (r, p, f, x).
+  B  programs: every program of the stated sizes (quick: 1 task x 2 calls, 2 tasks x 1 call; thorough adds 1 x 3 and
+     2 + 1) over the 11-letter call alphabet on representative logs, both baselines, both wake orders of blocked
+     callers, single-deviation budgets (r, p, f, x).
   H  hand-picked 3-4 call programs (seek / pause / max_records races across two tasks) with pairwise budgets.
 """
 from vf import conslogs, explore, scen_consumer
@@ -100,11 +101,9 @@ def scenarios(ctx):
         out.append((name, params, bounds))
 
     # ---- family A: every log shape, every start offset, cuts ---------------------------------------------------
-    nmax = 2 if quick else 3
-    shapes = conslogs.SHAPES if quick else conslogs.SHAPES + ("hole",)
-    for log in conslogs.all_logs(nmax, shapes):
-        if not quick and len(log) == 3 and "hole" in log and log.count("hole") > 1:
-            continue
+    logs = conslogs.all_logs(2, conslogs.SHAPES) if quick else (
+        conslogs.all_logs(2, conslogs.SHAPES + ("hole",)) + conslogs.all_logs(3, conslogs.SHAPES, min_batches=3))
+    for log in logs:
         end = conslogs.log_end(log)
         lname = "-".join(log)
         for cuts, cname in ((None, "all"), (1, "one")):
@@ -121,17 +120,25 @@ def scenarios(ctx):
         alpha = alphabet(mid, conslogs.log_end(log))
         shapes_b = [(2,), (1, 1)] if quick else [(2,), (1, 1), (3,), (2, 1)]
         for shape in shapes_b:
+            big = shape in ((3,), (2, 1))
+            if big and lname != "gzgap":
+                continue
             for prog in programs(alpha, shape):
                 for basel in ("net", "app"):
-                    if shape in ((3,), (2, 1)) and basel == "net" and lname != "gzgap":
+                    if big and basel == "net":
                         continue
-                    params = dict(FAULTS, logs={"0": {"shapes": log}, "1": P1_LOG}, baseline=basel, program=prog,
-                                  cut_choice=True)
-                    if quick:
-                        b = [{"r": 1}, {"f": 1}] if len(shape) == 1 else [{"r": 1}, {"p": 1}, {"f": 1}]
-                    else:
-                        b = [{"r": 1}, {"p": 1}, {"f": 1}, {"x": 1}]
-                    add(f"B/{lname}/{basel}/{prog_name(prog)}", params, b)
+                    # two blocked callers are woken in set-iteration order inside the library: explore both extremes
+                    orders = ("fifo", "lifo") if (len(shape) == 2 and basel == "app" and not big) else ("fifo",)
+                    for order in orders:
+                        params = dict(FAULTS, logs={"0": {"shapes": log}, "1": P1_LOG}, baseline=basel, program=prog,
+                                      cut_choice=True, waiter_order=order)
+                        if big:
+                            b = [{"r": 1}]
+                        elif quick:
+                            b = [{"r": 1}, {"f": 1}] if (len(shape) == 1 or basel == "net") else [{"r": 1}, {"p": 1}, {"f": 1}]
+                        else:
+                            b = [{"r": 1}, {"p": 1}, {"f": 1}, {"x": 1}]
+                        add(f"B/{lname}/{basel}{'-lifo' if order == 'lifo' else ''}/{prog_name(prog)}", params, b)
     # ---- family H: races, pairwise budgets -------------------------------------------------------------------------
     hlog = ["v1gz2", "v2gap"] if quick else ["v1gz2", "v2gap", "v2x2"]
     hand = [
@@ -150,7 +157,7 @@ def scenarios(ctx):
             if quick:
                 b = [{"r": 1, "f": 1}, {"p": 1}, {"x": 1}] if prog in hand[:3] + hand[6:7] else [{"r": 1}, {"p": 1}, {"f": 1}, {"x": 1}]
             else:
-                b = [{"r": 1, "p": 1, "f": 1}, {"r": 2}, {"p": 2}, {"f": 2}, {"r": 1, "x": 1}, {"f": 1, "x": 1}]
+                b = [{"r": 1, "f": 1}, {"p": 1, "f": 1}, {"r": 1, "p": 1}, {"r": 2}, {"f": 2}, {"r": 1, "x": 1}]
             add(f"H/{basel}/{prog_name(prog)}", params, b)
     return out
 
